@@ -120,7 +120,24 @@ func baseEnv(c *Ctx) run.Env {
 
 // genWorld generates a world and counts which generator features it has (world tags) as reach probes.
 func genWorld(c *Ctx, o world.GenOpts) *world.World {
+	if o.MaxRecs == 0 && o.Family == "" {
+		// long streams: most generated worlds have a handful of records (a few hundred bytes), so that
+		// the 4 096-byte buffers of the reader stacks are refilled at most once; one world in ten (one
+		// in four in the thorough tier) has tens to hundreds of records, i.e. many refills with a
+		// record in flight at each
+		den := 10
+		if c.Tier == "thorough" {
+			den = 4
+		}
+		if c.T.Chance("world.long", 1, den) {
+			o.MinRecs = []int{30, 60, 120, 300}[c.T.Weighted("world.long.recs", 4, 3, 2, 1)]
+			o.MaxRecs = o.MinRecs + 12
+		}
+	}
 	w := world.Generate(c.T, o)
+	if len(w.Input) > 2*4096 {
+		c.Hit("world.input-spans-more-than-two-4096-byte-buffers")
+	}
 	for k := range w.Tags {
 		switch k {
 		case "family", "encoding", "bom":
